@@ -338,6 +338,8 @@ def shard(desc):
             res.count('configs_with_schedule_dependent_rounding')
         if seq_mark is not None and seq_mark in by_op:
             judge_result(typ, xs, by_op[seq_mark].kv, res, c, variant, '(sequential reference) ' + ctx, memo, dkey)
+    if plan:
+        res.ensure_sample(plan[0][0])
     # phase 2: sequential replay of recorded trees must be bit-identical
     if replays:
         rlogs = run_driver(desc['binary'], ''.join(rc.text() for rc, *_ in replays), timeout=3600)
